@@ -76,16 +76,30 @@ func calculateCurrentAge(
 	}
 	apparentAge := max(responseTime.Sub(date), 0)
 	responseDelay := max(responseTime.Sub(requestTime), 0)
-	correctedAgeValue := ageVal + responseDelay
+	correctedAgeValue := SaturatingAdd(ageVal, responseDelay)
 	correctedInitialAge := max(apparentAge, correctedAgeValue)
 	residentTime := max(clock.Since(responseTime), 0)
 	return &Age{
-		Value:     correctedInitialAge + residentTime,
+		Value:     SaturatingAdd(correctedInitialAge, residentTime),
 		Timestamp: clock.Now(),
 	}
 }
 
 const maxDuration = 1<<63 - 1
+
+// SaturatingAdd adds two durations; a sum that does not fit saturates at the largest (or smallest)
+// duration instead of wrapping around (RFC 9111 §1.2.2). A Date centuries in the past already
+// saturates the apparent age, so adding the resident time to it must not overflow.
+func SaturatingAdd(a, b time.Duration) time.Duration {
+	s := a + b
+	switch {
+	case a > 0 && b > 0 && s < 0:
+		return maxDuration
+	case a < 0 && b < 0 && s >= 0:
+		return -maxDuration - 1
+	}
+	return s
+}
 
 // maxAgeValue caps the Age header value at 2^31 seconds (RFC 9111 §1.2.2).
 const maxAgeValue = (1 << 31) * time.Second
